@@ -83,6 +83,22 @@ Theorem timeout_rearms_the_shell_timer :
     end.
 Proof. exact timeout_rearms. Qed.
 
+(** ... and over whole histories: replaying the trace through the shell's timer
+    ([shell_timer]: every [ArmTimer] replaces the pending timer, every firing
+    spends it first), whenever the manager has an armed deadline -- by
+    [invariants_timer_is_earliest_deadline], whenever a flow exists -- the shell's
+    timer is pending at exactly that deadline.  No flow is ever left without a timer. *)
+Theorem shell_timer_always_covers_the_earliest_deadline :
+  forall hash c max_flows max_rx h d,
+    let m := fst (run hash (mgr_new c max_flows max_rx) h) in
+    let tr := snd (run hash (mgr_new c max_flows max_rx) h) in
+    m_armed m = Some d -> shell_timer tr None = Some d.
+Proof.
+  intros hash c mf mrx h d m tr Hd.
+  pose proof (run_keeps_timer hash h (mgr_new c mf mrx) None I) as H.
+  unfold TP in H. fold m tr in H. rewrite Hd in H. exact H.
+Qed.
+
 Theorem close_all_leaves_nothing :
   forall hash m now, Inv m ->
     let m' := fst (step hash m now ICloseAll) in
@@ -156,6 +172,19 @@ Theorem isolated_forward_is_exact :
     (forall i' d' q', In (Some i', SendToBackend d' q') (snd (step hash m now inp)) ->
                       i' = i /\ d' = d /\ q' = q).
 Proof. exact forward_exact. Qed.
+
+(** [isolated], order: over any history, the sequence of payloads an incarnation
+    forwarded ([fwd i]) is carried, element by element, by a SUB-SEQUENCE [es] of the
+    history's events, each a client datagram whose payload is the forwarded one
+    (behind an optional PROXY v2 header).  [sublist] keeps order and uses every event at
+    most once: nothing is duplicated, merged, truncated or reordered; what may be missing
+    are datagrams dropped on the way (only the newest one received before the resolution
+    is kept, see [isolated_buffer_newest_wins]). *)
+Theorem isolated_forwarding_in_order_without_duplication :
+  forall hash c max_flows max_rx h i,
+    let tr := snd (run hash (mgr_new c max_flows max_rx) h) in
+    exists es, sublist es tr /\ Forall2 carried es (fwd i (allouts tr)).
+Proof. intros. apply (ti_order _ _ (run_TI_init hash c max_flows max_rx h)). Qed.
 
 (** the documented pre-resolution buffering: one slot, the newest datagram wins,
     nothing is forwarded before the resolution; admission buffers the admitting datagram *)
@@ -250,3 +279,15 @@ Example timeout_rearms_nonvacuous :
   slen (m_flows (fst (step ex_hash m 51 ITimeout))) = 2 /\
   snd (step ex_hash m 51 ITimeout) = [(None, ArmTimer 101%N)].
 Proof. vm_compute. repeat split. Qed.
+
+Example shell_timer_nonvacuous :
+  let h := (ex_hist ++ [(51, ITimeout); (60, ITimeout)])%N in
+  let m := fst (run ex_hash (mgr_new ex_cfg 2 8) h) in
+  let tr := snd (run ex_hash (mgr_new ex_cfg 2 8) h) in
+  m_armed m = Some 101%N /\ shell_timer tr None = Some 101%N.
+Proof. vm_compute. repeat split. Qed.
+
+Example order_nonvacuous :
+  let tr := snd (run ex_hash (mgr_new ex_cfg 2 8) ex_hist) in
+  fwd 0 (allouts tr) = [dgram_header ex_a1 ex_b ++ [1;2;3]; [6;7]]%N /\ fwd 1 (allouts tr) <> [].
+Proof. vm_compute. split; [reflexivity | discriminate]. Qed.
